@@ -619,6 +619,43 @@ struct STRE {
         if (x.size() > 0) { x.erase(x.begin() + static_cast<std::ptrdiff_t>((a / 64) % x.size())); }
         return true;
     }
+    static bool from_view(int s, u32 a, bool bad)
+    {
+        // growing past the capacity through a view, an iterator range or a larger string: the source is longer than Cap
+        auto x = make(s);
+        ARM_STR(x);
+        std::vector<char> buf(Cap + 12, 'y');
+        auto const len = bad ? std::min<std::size_t>(Cap + 1 + (a / 8) % 8, buf.size()) : (a / 8) % (Cap + 1);
+        etl::string_view const view(buf.data(), len);
+        etl::inplace_string<Cap + 12> const bigger(buf.data(), len);
+        switch (a % 8) {
+        case 0: {
+            S y(view);
+            (void)y;
+            break;
+        }
+        case 1: {
+            S y(view, 0, len);
+            (void)y;
+            break;
+        }
+        case 2: x.assign(view); break;
+        case 3: x = view; break;
+        case 4: x.assign(view, 0, len); break;
+        case 5: {
+            S y(buf.data(), buf.data() + len);
+            (void)y;
+            break;
+        }
+        case 6: x.assign(buf.data(), buf.data() + len); break;
+        default: {
+            S y(bigger);
+            (void)y;
+            break;
+        }
+        }
+        return true;
+    }
     static bool replace_pos(int s, u32 a, bool bad)
     {
         // only the violating direction: the documented preconditions (pos < size(), pos + count < size()) also reject
@@ -1036,6 +1073,31 @@ bool linalg_extents(int s, u32 a, bool bad)
     }
     return true;
 }
+bool linalg_shapes(int s, u32 a, bool bad)
+{
+    // matrices with the same number of elements but different shapes (2x3 / 3x2 / 1x6 / 6x1, 4x3 / 2x6 / 3x4)
+    int xs[12], ys[12], zs[12] = {0};
+    for (int i = 0; i < 12; ++i) {
+        xs[i] = i + 1;
+        ys[i] = 20 + i;
+    }
+    std::vector<int> bz(zs, zs + 12), by(ys, ys + 12), bx(xs, xs + 12);
+    g_unmodified = [&] { return std::vector<int>(zs, zs + 12) == bz && std::vector<int>(ys, ys + 12) == by && std::vector<int>(xs, xs + 12) == bx; };
+    using M      = etl::mdspan<int, etl::dextents<int, 2>>;
+    static int const shapes6[4][2]  = {{2, 3}, {3, 2}, {1, 6}, {6, 1}};
+    static int const shapes12[4][2] = {{4, 3}, {2, 6}, {3, 4}, {12, 1}};
+    auto const* sh = (a / 16) % 2 == 0 ? shapes6 : shapes12;
+    int const i    = static_cast<int>(a % 4);
+    int const j    = bad ? static_cast<int>((a % 4 + 1 + (a / 4) % 3) % 4) : i;
+    M x(xs, sh[i][0], sh[i][1]), y(ys, sh[j][0], sh[j][1]), z(zs, sh[i][0], sh[i][1]), zj(zs, sh[j][0], sh[j][1]);
+    switch (s) {
+    case 0: etl::linalg::add(x, y, z); break;
+    case 1: etl::linalg::add(x, x, zj); break;
+    case 2: etl::linalg::copy(x, y); break;
+    default: etl::linalg::swap_elements(x, y); break;
+    }
+    return true;
+}
 bool linalg_matvec(int s, u32 a, bool bad)
 {
     // non-square shapes: rows r, cols c, x has c elements, y has r elements
@@ -1118,6 +1180,7 @@ using TCM = lt::TCM;
         Entry{"inplace_string<" tag ">::push_back", "basic_inplace_string.hpp", 5, &STRE<N>::push_back},                \
         Entry{"inplace_string<" tag ">::operator[]", "basic_inplace_string.hpp", 5, &STRE<N>::index},                   \
         Entry{"inplace_string<" tag ">::erase(first,last)/erase(position)", "basic_inplace_string.hpp", 5, &STRE<N>::erase_range}, \
+        Entry{"inplace_string<" tag "> from a longer view / iterator range / larger string", "basic_inplace_string.hpp", 5, &STRE<N>::from_view}, \
         Entry{"inplace_string<" tag ">::replace(pos>size)", "basic_inplace_string.hpp", 5, &STRE<N>::replace_pos},      \
         Entry{"inplace_string<" tag ">::replace(pos2>str.size())", "basic_inplace_string.hpp", 5, &STRE<N>::replace_pos2}
 
@@ -1168,11 +1231,68 @@ Entry const catalogue[] = {
     Entry{"static_vector<int,0> push_back/emplace_back/pop_back/insert", "static_vector.hpp", 1, &zero_capacity_vector},
     Entry{"linalg::matrix_vector_product with mismatched extents", "blas2_matrix_vector_product.hpp", 4, &linalg_matvec},
     Entry{"linalg add/copy/swap_elements with mismatched extents", "blas1_add.hpp|blas1_copy.hpp|blas1_swap_elements.hpp", 4, &linalg_extents},
+    Entry{"linalg add/copy/swap_elements with equal element counts but different shapes", "blas1_add.hpp|blas1_copy.hpp|blas1_swap_elements.hpp", 4, &linalg_shapes},
 #if defined(TETL_ENABLE_CONTRACT_CHECKS_SAFE)
     Entry{"array<int,4>::operator[] (SAFE)", "array.hpp", 2, &array_index},
 #endif
 };
 constexpr int nentries = sizeof(catalogue) / sizeof(catalogue[0]);
+
+// ---------------------------------------------------------------- constant evaluation
+// A violating call inside a constant expression cannot "invoke the handler"; what the user relies on is that it is NOT
+// accepted (the handler call makes it a non-constant expression => compile error), while the valid twin is accepted.
+// is_ce(lambda): can the call operator of the (captureless, default-constructible) lambda be constant-evaluated?
+template <typename F, int = (F{}(), 0)>
+constexpr auto is_ce(F) -> bool
+{
+    return true;
+}
+constexpr auto is_ce(...) -> bool { return false; }
+struct CeProbe {
+    char const* name;
+    bool violating_accepted;
+    bool valid_accepted;
+};
+#define CE_PAIR(NAME, BAD, GOOD) CeProbe{NAME, is_ce([] { BAD; return 0; }), is_ce([] { GOOD; return 0; })}
+using CeSV4 = etl::static_vector<int, 4>;
+using CeSV2 = etl::static_vector<int, 2>;
+using CeIV4 = etl::inplace_vector<int, 4>;
+using CeA4  = etl::array<int, 4>;
+CeProbe const ce_probes[] = {
+    CE_PAIR("static_vector<int,4>::pop_back on empty", CeSV4 v; v.pop_back(), CeSV4 v; v.push_back(1); v.pop_back()),
+    CE_PAIR("static_vector<int,4>::operator[](3) with one element", CeSV4 v; v.push_back(1); (void)v[3], CeSV4 v; v.push_back(1); (void)v[0]),
+    CE_PAIR("static_vector<int,4>::push_back when full", CeSV2 v; v.push_back(1); v.push_back(2); v.push_back(3), CeSV2 v; v.push_back(1); v.push_back(2)),
+    CE_PAIR("static_vector<int,4>::front on empty", CeSV4 v; (void)v.front(), CeSV4 v; v.push_back(1); (void)v.front()),
+    CE_PAIR("inplace_vector<int,4>::pop_back on empty", CeIV4 v; v.pop_back(), CeIV4 v; v.unchecked_push_back(1); v.pop_back()),
+    CE_PAIR("bitset<8>::set(12)", etl::bitset<8> b; b.set(12), etl::bitset<8> b; b.set(3)),
+    CE_PAIR("bitset<8>::test(8)", etl::bitset<8> b; (void)b.test(8), etl::bitset<8> b; (void)b.test(7)),
+    CE_PAIR("span<int>::first(9) of 4", int a[4] = {}; etl::span<int> s(a); (void)s.first(9), int a[4] = {}; etl::span<int> s(a); (void)s.first(2)),
+    CE_PAIR("span<int>::operator[](4) of 4", int a[4] = {}; etl::span<int> s(a); (void)s[4], int a[4] = {}; etl::span<int> s(a); (void)s[3]),
+    CE_PAIR("string_view::remove_prefix(5) of 3", etl::string_view s("abc", 3); s.remove_prefix(5), etl::string_view s("abc", 3); s.remove_prefix(3)),
+    CE_PAIR("string_view::operator[](7) of 3", etl::string_view s("abc", 3); (void)s[7], etl::string_view s("abc", 3); (void)s[2]),
+    CE_PAIR("inplace_string<7>::push_back when full", etl::inplace_string<3> s(3, 'x'); s.push_back('y'), etl::inplace_string<3> s(2, 'x'); s.push_back('y')),
+    CE_PAIR("inplace_string<7>(count > capacity, ch)", etl::inplace_string<7> s(9, 'x'); (void)s, etl::inplace_string<7> s(7, 'x'); (void)s),
+    CE_PAIR("optional<int>::operator* when empty", etl::optional<int> o; (void)*o, etl::optional<int> o(3); (void)*o),
+    CE_PAIR("chrono::day{300}", etl::chrono::day d{300}; (void)d, etl::chrono::day d{30}; (void)d),
+    CE_PAIR("div_sat(1, 0)", (void)etl::div_sat(1, 0), (void)etl::div_sat(1, 1)),
+    CE_PAIR("set_bit<u8>(x, 9)", (void)etl::set_bit(std::uint8_t{1}, std::uint8_t{9}), (void)etl::set_bit(std::uint8_t{1}, std::uint8_t{7})),
+#if defined(TETL_ENABLE_CONTRACT_CHECKS_SAFE)
+    CE_PAIR("array<int,4>::operator[](4) (SAFE)", CeA4 a{}; (void)a[4], CeA4 a{}; (void)a[3]),
+#endif
+};
+constexpr int nce = sizeof(ce_probes) / sizeof(ce_probes[0]);
+struct CeCase {
+    int index;
+};
+auto show_case(CeCase const& k) -> std::string { return "CE;" + std::to_string(k.index) + ";0;" + ce_probes[k.index].name; }
+auto run_ce(CeCase const& k, bool* applicable) -> std::string
+{
+    auto const& p = ce_probes[k.index];
+    *applicable   = p.valid_accepted; // an operation that is not usable in constant expressions at all has no compile-time contract
+    if (!p.valid_accepted) { return ""; }
+    if (p.violating_accepted) { return std::string(p.name) + ": the violating call is accepted as a constant expression (no diagnostic, the constant is built from garbage) while the check is enabled"; }
+    return "";
+}
 
 struct Case {
     int entry;
@@ -1302,6 +1422,23 @@ void vf_run(vf::Ctx& c)
     vf::g_contract_hook = &child_hook;
     std::uint64_t item  = 0;
     vf::Rng rng(c.seed);
+    if (c.shard == 0) {
+        for (int i = 0; i < nce; ++i) {
+            CeCase k{i};
+            vf::Flight<CeCase> fl("consteval", k);
+            bool applicable = false;
+            auto d          = run_ce(k, &applicable);
+            vf::label("consteval.valid_twin_is_a_constant_expression", applicable);
+            if (!applicable) { continue; }
+            vf::eval("consteval");
+            if (!d.empty()) {
+                vf::mismatch("consteval", k, d);
+                return;
+            }
+            vf::nontrivial(vf::fnv(show_case(k)));
+            if (i % 5 == 0) { vf::sample("consteval", [&] { return show_case(k) + "  -> violating call rejected in a constant expression, valid twin accepted"; }); }
+        }
+    }
     int extra = c.thorough() ? 200 : 12; // random arguments per (entry, state, mode) on top of the boundary list
     for (int ei = 0; ei < nentries; ++ei) {
         auto const& e = catalogue[ei];
@@ -1354,6 +1491,17 @@ std::string vf_replay(std::string const&, std::string const& cs)
     std::getline(ss, st, ';');
     std::getline(ss, ar, ';');
     std::getline(ss, name);
+    if (mode == "CE") {
+        for (int i = 0; i < nce; ++i) {
+            if (name == ce_probes[i].name) {
+                CeCase k{i};
+                bool applicable = false;
+                auto d          = run_ce(k, &applicable);
+                return applicable ? d : std::string("case not applicable (the valid twin is not a constant expression)");
+            }
+        }
+        return "unknown constant-evaluation probe: " + name;
+    }
     for (int ei = 0; ei < nentries; ++ei) {
         if (name == catalogue[ei].name) {
             Case k{ei, std::atoi(st.c_str()), static_cast<u32>(std::strtoul(ar.c_str(), nullptr, 10)), mode == "V"};
